@@ -42,6 +42,10 @@ CHECKS = {
          "The real CONNECT path of proxy.go runs over simnet under the gosim scheduler: all early-data placements x chunk lists in both directions at once x who finishes first x full/half close x direct or downstream-proxy route x request/response conversations; every schedule with <=2 (quick) / <=3 (thorough) deviations; oracle at the first quiescent point with zero virtual time elapsed: exact byte streams, prompt EOF on the other end, both connections released.",
          "simnet models TCP semantics (coalescing reads, FIN, write-after-close); pauses are interleavings; sizes up to 32769 bytes (1 MiB thorough).",
          "stateless schedule enumeration of the implementation (gosim) with deviation bounding and virtual time", "gosim", "DESIGN.md §7 C04"),
+ "C19": ("model_checking",
+         "Part 1: exhaustive message shapes x body sizes x consumer read-buffer sequences x early close x body errors logged through the real marbl Stream/Modifier (inside gosim executions), frames re-parsed with marbl.Reader and an independent parser. Part 2: 2-3 threads logging concurrently to one stream under the gosim scheduler (all interleavings for the small scenarios, deviation-bounded for the rest): whole-frame writes, contiguous ordered data indices, no deadlock. Part 3: frame-grammar byte strings with every length field from {0,1,2,2^31-1,2^31,2^32-2,2^32-1}, truncation at every offset, and all short strings over a 6-byte alphabet fed to marbl.Reader in memory-capped worker processes.",
+         "Concurrent Reads of one body are out of scope; the agent-written explorer branches only after the sequential set-up phase.",
+         "bounded-exhaustive input enumeration + stateless schedule enumeration (gosim)", "gosim", "DESIGN.md §7 C19"),
  "C20": ("model_checking",
          "Exhaustive enumeration of contents x Range header strings from a grammar (units, 1..3 specs from a 36-spec pool incl. out-of-bounds, reversed, huge, malformed) for the body and static modifiers, and of all request paths of <=3/4 segments over 8 dotted/encoded spellings x URL forms x explicit path maps for the static modifier, against an RFC 7233 reference model and a root directory with sentinel files outside it; allocation-heavy cases run in memory-capped worker processes.",
          "Sizes {0,1,2,10,65536}; unit pool {bytes=,Bytes=,items=,none}; ModifyRequest not exercised.",
